@@ -536,6 +536,29 @@ class Piece:
         at = pos if where == "before" else pos + len(anchor)
         self.inserts.append((at, text, tag))
 
+    def insert_after_stmt(self, prefix, text, nth=1, tag="ghost"):
+        """Insert ghost text after the statement (up to its `;`) that starts with `prefix`."""
+        body0 = self.sig_end()
+        pos, start = -1, body0
+        for _ in range(nth):
+            pos = self.text.find(prefix, start)
+            if pos < 0:
+                raise Lost("%r: statement starting with %r (#%d) not found" % (self.item, prefix, nth))
+            start = pos + 1
+        depth, k = 0, pos
+        while k < len(self.text):
+            ch = self.text[k]
+            if ch in "([{":
+                depth += 1
+            elif ch in ")]}":
+                depth -= 1
+            elif ch == ";" and depth == 0:
+                break
+            k += 1
+        if k >= len(self.text):
+            raise Lost("%r: statement starting with %r is not terminated" % (self.item, prefix))
+        self.inserts.append((k + 1, text, tag))
+
     def sub(self, pattern, repl, rule, count=None, required=True, flags=0):
         """Catalogue rewrite: regex replacement, logged. `count`: exact number expected."""
         ms = list(re.finditer(pattern, self.text, flags))
